@@ -547,7 +547,8 @@ def run(ctx):
                 continue
             found = None
             for rn in gcfg_.nodes_of(ret):
-                found = guarded_by(gcfg_, rn, lambda e: isinstance(e, ast.Compare) and len(e.ops) == 1 and isinstance(e.ops[0], (ast.Eq, ast.Is, ast.In)) and any(isinstance(x, ast.Name) and x.id in lprm for x in walk_no_nested(e)), polarity=True, kill_names=lambda e: set())
+                found = guarded_by(gcfg_, rn, lambda e: any(isinstance(c_, ast.Compare) and len(c_.ops) == 1 and isinstance(c_.ops[0], (ast.Eq, ast.Is, ast.In)) and any(isinstance(x, ast.Name) and x.id in lprm for x in ast.walk(c_))
+                                                            for c_ in ast.walk(e)) and not (isinstance(e, ast.UnaryOp) and isinstance(e.op, ast.Not)), polarity=True, kill_names=lambda e: set())
             if found is not None:
                 r.ok("%s: %s only when the listener was found" % (glp.short, norm(ret)))
             else:
